@@ -118,7 +118,9 @@ def run(model, col, tier):
         nlit = 0
         for evs, status in paths(f.body):
             conds_ = [e for e in evs if e.kind == "cond"]
-            lit = any(e.val and "isinstance" in unparse(e.node) and "LiteralExpression" in unparse(e.node) for e in conds_)
+            from ..paths import cond_atoms as _ca13
+
+            lit = any(k_.startswith("isinstance(") and "LiteralExpression" in k_ and v_ is True for k_, v_ in _ca13(evs).items())
             if not lit or status == "raise":
                 continue
             nlit += 1
@@ -212,7 +214,10 @@ def run(model, col, tier):
 
         import copy as _copy
 
-        test3 = ast.fix_missing_locations(_AttrSubst().visit(_copy.deepcopy(rif3.test)))
+        from ..sem import local_env as _le13, resolve as _rs13
+
+        test3 = _rs13(rif3.test, {k_: v_ for k_, v_ in _le13(f3).items() if k_ != tname})
+        test3 = ast.fix_missing_locations(_AttrSubst().visit(_copy.deepcopy(test3)))
         for c in classes:
             env = {tname or "rhsType": T(c)}
             env.update({f"types.{k}": T(k) for k in classes})
@@ -257,6 +262,11 @@ def run(model, col, tier):
 
         def resolve(e):
             if isinstance(e, ast.Name):
+                # assigned in both arms of one if/else: the value is the conditional expression
+                for n_ in ast.walk(h):
+                    if isinstance(n_, ast.If) and len(n_.body) == 1 and len(n_.orelse) == 1 and all(
+                            isinstance(s_, ast.Assign) and isinstance(s_.targets[0], ast.Name) and s_.targets[0].id == e.id for s_ in (n_.body[0], n_.orelse[0])):
+                        return ast.IfExp(test=n_.test, body=n_.body[0].value, orelse=n_.orelse[0].value)
                 v = find_assign(h, e.id)
                 return v[-1] if v else e
             return e
@@ -278,8 +288,24 @@ def run(model, col, tier):
                 col.check(("IsVector" in t and " 1" in t) or "IsScalar" in t, "R13.4", f"{SWZ}::v_MemberAccessExpression scalar count",
                           "a scalar parent counts as one component", "the count expression does not treat a scalar parent as one component", SWZ, c)
         gt = [n for n in ast.walk(h) if isinstance(n, ast.If) and any(x is c for s in n.body for x in ast.walk(s))]
-        col.check(any("IsVector" in unparse(n.test) and "IsScalar" in unparse(n.test) for n in gt), "R13.4", f"{SWZ}::v_MemberAccessExpression applies to vectors and scalars",
-                  "masks on vector and scalar parents are validated", "the validation is not applied to both vector and scalar parents", SWZ, h)
+        # fold the enclosing guards over the kind of the parent's type: vector and scalar parents must reach the mask check
+        from ..kindflow import make_fold as _mkfold
+
+        KIND_PRED = {"vector": {"IsPrimitive": True, "IsVector": True, "IsScalar": False, "IsMatrix": False, "IsArray": False, "IsStructure": False, "IsAggregate": False},
+                     "scalar": {"IsPrimitive": True, "IsVector": False, "IsScalar": True, "IsMatrix": False, "IsArray": False, "IsStructure": False, "IsAggregate": False}}
+        reach = {}
+        for kind_, preds_ in KIND_PRED.items():
+            def atom_(t_, preds_=preds_):
+                if isinstance(t_, ast.Call) and isinstance(t_.func, ast.Attribute) and t_.func.attr in preds_ and not t_.args:
+                    return preds_[t_.func.attr]
+                return None
+
+            fold_ = _mkfold(atom_)
+            vals_ = [fold_(n.test) for n in gt]
+            reach[kind_] = all(v is not False for v in vals_)
+        col.check(bool(gt) and all(reach.values()) or (not gt), "R13.4", f"{SWZ}::v_MemberAccessExpression applies to vectors and scalars",
+                  "masks on vector and scalar parents are validated",
+                  f"the guard around the mask check is false for {[k for k, v in reach.items() if not v]} parents ({[' '.join(unparse(n.test).split()) for n in gt]}): their masks are never validated", SWZ, h)
         # whether a mask is validated may depend on the parent's type only (no visitor state, no cache)
         tvars = {n.targets[0].id for n in ast.walk(h) if isinstance(n, ast.Assign) and isinstance(n.targets[0], ast.Name) and "GetParent().GetType()" in unparse(n.value)}
         impure = []
@@ -309,9 +335,23 @@ def run(model, col, tier):
                 continue
             consts = {x.value for x in ast.walk(t) if isinstance(x, ast.Constant) and isinstance(x.value, str)}
             names = {x.id for x in ast.walk(t) if isinstance(x, ast.Name)}
-            if any(isinstance(x, ast.Compare) and isinstance(x.ops[0], ast.NotIn) for x in ast.walk(t)):
-                alpha = "".join(sorted(set("".join(consts))))
-                if alpha == "".join(sorted(oracles.SWIZZLE)) and "INVALID" in raises[0]:
+            if any(isinstance(x, ast.Compare) and isinstance(x.ops[0], (ast.NotIn, ast.In)) for x in ast.walk(t)) and "INVALID" in raises[0] and (cparam is None or cparam not in names):
+                # fold the test over sample masks: it must reject exactly the masks with a letter outside the alphabet
+                alphabet = set(oracles.SWIZZLE)
+                agree = True
+                for sample in ("x", "w", "r", "a", "xyzw", "rgba", "q", "xq", "qx", "xyzq", "X", "s", "xs", "1"):
+                    try:
+                        got = bool(ev(t, {hp[0]: sample}))
+                    except CannotEval:
+                        agree = None
+                        break
+                    if got != any(ch not in alphabet for ch in sample):
+                        agree = False
+                        break
+                if agree is None:
+                    alpha = "".join(sorted(set("".join(consts))))
+                    agree = alpha == "".join(sorted(oracles.SWIZZLE)) and any(isinstance(x, ast.Compare) and isinstance(x.ops[0], ast.NotIn) for x in ast.walk(t))
+                if agree:
                     alpha_ok = True
             if fams <= consts and isinstance(t, ast.BoolOp) and isinstance(t.op, ast.And) and (cparam is None or cparam not in names) and "MIXED" in raises[0]:
                 mix_ok = True
